@@ -226,9 +226,9 @@ def analyse_unit_functions(ex, contracts, prop, res, table):
                     continue
                 db = blocks[d]
                 t = db.get("term")
-                if t and t.get("kind") == "SwitchStmt" and t.get("cond"):
+                if t and t.get("kind") == "SwitchStmt" and t.get("switch_cond"):
                     # the arm that dominates the call: case v  =>  x == v ;  default  =>  x != every case value
-                    x = lin(t["cond"])
+                    x = lin(t["switch_cond"])
                     if x is not None and len(x[1]) == 1 and not any(t["line"] <= l <= line for v in vars_of(x) for l in asg.get(v, [])):
                         (sx, kx), = x[1]
                         vals = []
